@@ -12,7 +12,7 @@ from . import common as C
 from .common import L
 
 ID = "C04"
-RUNS = {"quick": 30_000, "thorough": 600_000}
+RUNS = {"quick": 20_000, "thorough": 400_000}
 BUDGET_S = {"quick": 60, "thorough": 800}
 CHUNK = 250
 RULE = ("each run draws (domain, problem) and a plan of 0-10 steps built by a reference random walk with inapplicable "
@@ -231,6 +231,10 @@ def execute_plan(ctx, W, S, plan, lines, allow, cfg, ops):
             if not interp.state_eq(a, b):
                 raise Violation("C04/exported-state-differs", "TrajectoryExporter.export",
                                 f"state {i}: {interp.state_diff(a, b)}")
+    # ---- history on the exporter object: the same exporter runs further plans (a refused call retried from a state in
+    # which it is applicable, then a fresh random plan); every plan must again conform
+    if not isinstance(W, C.FixtureWorld) and cfg.chance(1, 2):
+        reuse_exporter(ctx, W, S, plan, exporter, allow, ops)
     # ---- direct application of each step: refusal guard
     cur = S
     for i, (c, kind, want) in enumerate(plan):
@@ -262,6 +266,48 @@ def pre_features(act):
     if act.get("pre_single_literal"):
         feats["single_literal_pre"] = True
     return feats
+
+
+def reuse_exporter(ctx, W, S, plan, exporter, allow, ops):
+    site = "TrajectoryExporter.parse_plan (exporter re-used)"
+    refused = [c for c, k, _ in plan if k == "invalid"]
+    for round_ in range(2):
+        S2 = S
+        plan2 = []
+        if round_ == 0 and refused:
+            c = refused[-1]
+            S2 = C.force_applicable(S, W.action(c[0]), c[1], W)
+            try:
+                if interp.applicable(S2, W.action(c[0]), c[1], W.D, W.objs):
+                    nxt = interp.successor(S2, W.action(c[0]), c[1], W.D, W.objs)[0]
+                    plan2.append((c, "valid", nxt))
+            except (interp.Inconsistent, interp.Undefined):
+                pass
+            if not plan2:
+                continue
+        cur = plan2[-1][2] if plan2 else S2
+        for _ in range(ops.draw(4)):
+            r = C.pick_applicable_call(ctx, W, cur, ops, tries=5)
+            if r is None:
+                break
+            S1, c, want, _ = r
+            if not interp.state_eq(S1, cur):
+                if plan2:
+                    continue
+                S2 = S1
+            plan2.append((c, "valid", want))
+            cur = want
+        if not plan2:
+            continue
+        try:
+            p2 = C.parse_problem(ctx, W.problem_text(S2), exporter.domain, f"problem-reuse{round_}.pddl")
+            tr = exporter.parse_plan(p2, action_sequence=[C.fmt_call(*c) for c, _, _ in plan2])
+        except Exception as e:
+            raise Violation("C04/plan-rejected", site, f"{type(e).__name__}: {e}")
+        check_triplets(ctx, W, S2, plan2, tr, allow, site)
+        ctx.probes["exporter_reused"] += 1
+        if round_ == 0:
+            ctx.probes["refused_call_retried_when_applicable"] += 1
 
 
 def direct(ctx, op, st, kind, want, c):
